@@ -33,13 +33,13 @@ func (c12) Count(tier string) int {
 
 // ---------------------------------------------------------------- values
 
-const p53 = int64(1) << 53
+const c12P53 = int64(1) << 53
 
 var c12Int64s = []int64{0, 1, -1, 5, -5, 7, 10, 127, -128, 255, 32767, 65535, 1<<31 - 1, -(1 << 31), 1<<32 - 1, 1 << 32,
-	p53 - 1, p53, p53 + 1, p53 + 2, p53 + 3, -p53 - 1, -p53, -p53 + 1, 1 << 62, math.MaxInt64, math.MinInt64, math.MaxInt64 - 1}
+	c12P53 - 1, c12P53, c12P53 + 1, c12P53 + 2, c12P53 + 3, -c12P53 - 1, -c12P53, -c12P53 + 1, 1 << 62, math.MaxInt64, math.MinInt64, math.MaxInt64 - 1}
 var c12Uint64s = []uint64{0, 1, 5, 255, 65535, 1<<32 - 1, 1 << 32, 1<<53 - 1, 1 << 53, 1<<53 + 1, 1<<53 + 3, 1<<63 - 1, 1 << 63, 1<<63 + 1, math.MaxUint64, math.MaxUint64 - 1}
 var c12Floats = []float64{0, math.Copysign(0, -1), 0.5, 5, 5.5, -5.5, 0.1, 1e-9, 1e308, 5e-324, math.NaN(), math.Inf(1), math.Inf(-1),
-	float64(p53), float64(p53) + 2, float64(p53) - 1, -float64(p53), 9.223372036854775808e18, 1.8446744073709551616e19, 16777217, 1, -1, 123456789.125}
+	float64(c12P53), float64(c12P53) + 2, float64(c12P53) - 1, -float64(c12P53), 9.223372036854775808e18, 1.8446744073709551616e19, 16777217, 1, -1, 123456789.125}
 var c12Float32s = []float32{0, 0.1, 5, 5.5, 16777216, float32(math.NaN()), float32(math.Inf(1)), -2.5, 3.4e38}
 var c12Strs = []string{"", "a", "abc", "abd", "ab", "5", "b", "B", "é", "a b", "a\nb", "a\\b", "a\\nb", "a\rb", "\xff", "a\xffb", "�", "a�b", "中文", "a && b", "a || b", "("}
 var c12IntWidths = []string{"i", "i8", "i16", "i32", "i64", "u", "u8", "u16", "u32", "u64"}
@@ -98,7 +98,7 @@ func c12GenVal(rng *rand.Rand) string {
 		u := c12Uint64s[rng.Intn(len(c12Uint64s))]
 		switch rng.Intn(4) {
 		case 0: // around 2^53 / 2^63
-			v = p53 + int64(rng.Intn(9)) - 4
+			v = c12P53 + int64(rng.Intn(9)) - 4
 			if rng.Intn(2) == 0 {
 				v = -v
 			}
